@@ -95,7 +95,49 @@ def detect(sid, props):
     return res
 
 
+def pdetect(sid, props):
+    """detection without touching /repo or /verif (so that several can run side by side): a scratch worktree of /repo
+    with the patch applied, a scratch copy of /verif (lake build output included), the registered quick command run in
+    the copy with EXPONAX_REPO / PYTHONPATH pointing at the worktree.  Both are removed afterwards."""
+    d = os.path.join(VERIF, "seeded", sid)
+    meta = json.load(open(os.path.join(d, "meta.json")))
+    if not props:
+        props = [meta["property"]]
+    wt, vc = f"/tmp/dwt_{sid}", f"/tmp/vcopy_{sid}"
+    sh(f"git -C /repo worktree remove --force {wt}; rm -rf {vc}")
+    res = {"id": sid, "checks": {}, "method": "scratch worktree + scratch copy of /verif (EXPONAX_REPO, PYTHONPATH)"}
+    try:
+        rc, out = sh(f"git -C /repo worktree add -q {wt} HEAD && git -C {wt} apply {d}/patch.diff")
+        if rc != 0:
+            res["apply_error"] = out[-400:]
+            return res
+        sh(f"rsync -a --exclude .git --exclude seeded --exclude replays --exclude .work {VERIF}/ {vc}/")
+        env = dict(os.environ, EXPONAX_REPO=wt, PYTHONPATH=wt, JAX_PLATFORMS="cpu")
+        for p in props:
+            t = time.time()
+            rc, out = sh(f"{PY} harness/run_check.py {p} --tier quick", cwd=vc, env=env, timeout=3600)
+            viol = [l for l in out.splitlines() if l.startswith("VIOLATION")]
+            summ = [l for l in out.splitlines() if l.startswith(f"[{p}]")]
+            whats = []
+            for l in viol[:6]:
+                m = re.search(r"replay=(\S+)", l)
+                if m and os.path.exists(os.path.join(vc, m.group(1))):
+                    pay = json.load(open(os.path.join(vc, m.group(1))))
+                    whats.append({"kind": pay.get("kind"), "key": pay.get("key"), "history": pay.get("history"),
+                                  "what": str(pay.get("what"))[:300], "broken": len(pay.get("broken_obligations", pay.get("no_longer_checks", [])))})
+            res["checks"][p] = {"exit": rc, "violations": viol[:6], "replays": whats, "summary": summ[-1] if summ else out[-300:],
+                                "wall_s": round(time.time() - t, 1)}
+            print(sid, p, "exit", rc, viol[:2], flush=True)
+    finally:
+        sh(f"git -C /repo worktree remove --force {wt}; rm -rf {vc}")
+        res["detected_by"] = [p for p, r in res["checks"].items() if r["exit"] == 1 and r["violations"]]
+        res["with_failing_input"] = [p for p, r in res["checks"].items()
+                                     if any(w.get("kind") == "failing-input" for w in r.get("replays", []))]
+        json.dump(res, open(os.path.join(d, "detect.json"), "w"), indent=1)
+    return res
+
+
 if __name__ == "__main__":
     mode, sid = sys.argv[1], sys.argv[2]
-    r = confirm(sid) if mode == "confirm" else detect(sid, sys.argv[3:])
+    r = confirm(sid) if mode == "confirm" else (pdetect(sid, sys.argv[3:]) if mode == "pdetect" else detect(sid, sys.argv[3:]))
     print(json.dumps(r, indent=1)[:3000])
